@@ -273,7 +273,7 @@ typedef struct { int statusCode; iora_sv statusText; iora_sv httpVersion; iora_h
 struct hm_block_ghost {
   size_t sub_off, sub_n;                    /* the last hs.substr(pos, n): offset and length of the copy */
   size_t cur, cur_end;                      /* header-line loop: start and end of the line being processed */
-  bool seen; size_t s_va, s_vn, s_le;       /* snapshot of the line that starts at GS: (trimmed) value range, line end */
+  bool seen, s_iscl; size_t s_va, s_vn, s_le; /* snapshot of the line that starts at GS: filed under Content-Length?, (trimmed) value range, line end */
   size_t cl_off;                            /* offset in hs of the value stored in the map under Content-Length */
 } HB;
 
@@ -351,6 +351,6 @@ static inline void hm_hdrs_set(iora_hdrs *m, const iora_sv *hs, iora_sv k, iora_
 #endif
   if (is_cl) { m->has_cl = 1; m->cl.second = v; HB.cl_off = off; }
   else if (is_te) { m->has_te = 1; m->te.second = v; }
-  if (HB.cur == GS) { HB.seen = 1; HB.s_va = off; HB.s_vn = v.n; HB.s_le = HB.cur_end; }
+  if (HB.cur == GS) { HB.seen = 1; HB.s_iscl = is_cl; HB.s_va = off; HB.s_vn = v.n; HB.s_le = HB.cur_end; }
 }
 #endif
